@@ -135,3 +135,26 @@ Proof.
     + destruct (srv_run G (map (after s0) ls) ops) as [w2 rs] eqn:E; cbn [fst]; rewrite <- (IH ls), E; reflexivity.
 Qed.
 End SH.
+
+(* the GGM key at the code's depth (one input byte = 8 levels), through the byte interface *)
+Section GB.
+Variable Seed : Type.
+Variable prg : bool -> Seed -> Seed.
+Variables s0 s1 : Seed.
+Definition bpunct (g : gstate Seed) (b : N) : gstate Seed := fst (ggm_puncture Seed prg g [b]).
+Lemma bpunct_step g b : bpunct g b = step Seed prg g (md_bits b).
+Proof. unfold bpunct, ggm_puncture. change (Nat.eqb (length [b]) Params.ggm_inp_len) with true. reflexivity. Qed.
+Theorem ggm_bytes_history (h : list N) (x : N) :
+  ggm_eval Seed prg (fold_left bpunct h (ginit Seed s0 s1)) [x] =
+    if in_dec_bits (md_bits x) (map md_bits h) then inr NoPrefixFound
+    else inl (Some (nv Seed prg s0 s1 (md_bits x))).
+Proof.
+  assert (E : fold_left bpunct h (ginit Seed s0 s1) = fold_left (step Seed prg) (map md_bits h) (ginit Seed s0 s1)).
+  { generalize (ginit Seed s0 s1). induction h as [|b h IH]; intros g; cbn [fold_left map]; [reflexivity|].
+    rewrite bpunct_step. apply IH. }
+  rewrite E. unfold ggm_eval. change (Nat.eqb (length [x]) Params.ggm_inp_len) with true. cbv iota. fold (md_bits x).
+  rewrite (history_eval Seed prg s0 s1 8 (map md_bits h) (md_bits x)); [|lia| |reflexivity].
+  - destruct (in_dec_bits (md_bits x) (map md_bits h)); reflexivity.
+  - apply Forall_forall. intros y Hy. apply in_map_iff in Hy. destruct Hy as [z [<- _]]. reflexivity.
+Qed.
+End GB.
